@@ -23,7 +23,9 @@ META = dict(
                "covers *args and **kwargs faithfully, the theorem C08_scope_excludes_var_positional shows the statement fails "
                "there: observation, not a finding). A keyword named `self` is refused by kiq() itself (TypeError at the caller). "
                "A str with a lone surrogate is not counted as JSON-representable. Annotations on which parse_obj_as raises "
-               "outside ValueError/RuntimeError (bare pydantic.BaseModel) are excluded by hypothesis and from the generator. "
+               "outside ValueError/RuntimeError (only a user validator that itself raises TypeError was found) are excluded by "
+               "hypothesis from C08_binding and from the oracle; C08_foreign_exception_not_invoked covers them. "
+               "None is never converted (the code's `if value is None: continue`). "
                "Trusted: Coq kernel + vm_compute; pydantic's parse_obj_as enters as a finite table of its real answers; the "
                "serializer/pydantic round trip is validated by the differential run only (orjson/msgpack/cbor serializers are "
                "not importable in this sandbox and are out of reach).",
@@ -639,7 +641,7 @@ def run(ctx):
     broken = explore(ctx, rep, ex, "small_scope") or broken
     if (broken or any(not o["ok"] for o in rep.obligations)) and not rep.failures:
         r2 = ctx.sub_rng("search")
-        explore(ctx, rep, [gen_case(r2) for _ in range(ctx.n(20000, 100000))], "search")
+        explore(ctx, rep, [gen_case(r2) for _ in range(ctx.n(10000, 100000))], "search")
     return rep.finish()
 
 
